@@ -20,6 +20,8 @@ runs under — e.g. `Rule[skipws]` in a meta-model with `skipws=True`), every in
                      fuel with the same result at the same end position and with the same failure record `nm`;
 * `C19_converse_at`— whenever the memoizing parser finishes, the plain parser finishes (with some fuel) with
                      the same result, end position and failure record: memoization cuts no recursion;
+* `C19_partial_warm_at` — `C19_partial_at` from any state whose cache holds finished plain results only (the
+                     invariant is re-established, so caches may be kept between `parse` calls on one input);
 * `C19_partial_agree_at`, `C19_posdet_at`, `C19_partial_accept_at` — as below, for `UniformAt`;
 * `Tx.C19_load_at` — model level: `Tx.loadMemo` (the textX mirror `Tx.load` run with the memoizing parser)
                      returns what `Tx.load` returns whenever the parser finished.
@@ -132,6 +134,20 @@ theorem C19_converse_at (g : Grammar) (sk : Bool) (w : List Char) (hu : UniformA
     ∃ m t0, parse g m top (initState sk w) = (r, t0) ∧ t0.pos = t1.pos ∧ t0.nm = t1.nm := by
   obtain ⟨m, t0, h0, hq⟩ := memo_fin_plain g hu hm (initState_QmA g sk w) h hr
   exact ⟨m, t0, h0, hq.1.1, hq.2.1⟩
+
+/-- **Warm caches**: the same from *any* pair of states at one position in context `(sk, w)` whose memo cache holds
+results of finished plain runs only (`QmA`; `initState` with its empty cache is the special case) — and the cache
+the memoizing run leaves behind is again of this kind, so the statement iterates over any sequence of `parse` calls
+that keep the cache (on the same input). -/
+theorem C19_partial_warm_at (g : Grammar) (sk : Bool) (w : List Char) (hu : UniformAt g sk w) (hm : g.memo = false)
+    (n e : Nat) (sP sM : PState) (hq : QmA g sk w sP sM) (r : Res) (tP : PState)
+    (h : parse g n e sP = (r, tP)) (hr : r ≠ .fuel) :
+    ∃ tM, parse (g.withMemo true) n e sM = (r, tM) ∧ tM.pos = tP.pos ∧ tM.nm = tP.nm ∧ QmA g sk w tP tM := by
+  obtain ⟨tM, h1, hq'⟩ := memo_sim_at g hu hm n e sP sM r tP hq h hr
+  exact ⟨tM, h1, hq'.1.1.symm, hq'.2.1.symm, hq'⟩
+
+/-- the hypothesis `QmA` is satisfiable: the initial state, and every state reached from it -/
+example (g : Grammar) (sk : Bool) (w : List Char) : QmA g sk w (initState sk w) (initState sk w) := initState_QmA g sk w
 
 /-- any finished memoizing run agrees with any finished plain run -/
 theorem C19_partial_agree_at (g : Grammar) (sk : Bool) (w : List Char) (hu : UniformAt g sk w) (hm : g.memo = false)
